@@ -9,6 +9,8 @@ TRUST = ('Trusted: nightly MIR == what stable rustc builds (counterexamples are 
          '(listed per run in the evidence, validated by the concrete differential self-test against the native binary). ')
 
 CLAIMED = {
+    'C02': ('Envelope: LdapCodec::encode -> build_tag -> encode_into from MIR for every message ID in 1..2^31-1, None/Some(0..2 (3)) controls with symbolic OID/criticality/value, operation bodies incl. lengths across the 127/128 boundary, against a reference RFC 4511 encoder. Builders: each of the 11 operations (15 argument shapes: every Mod variant, present/absent newSuperior and extended value, empty-value Add refused, search options) is executed from its async-fn coroutine MIR up to Ldap::op_call; the captured (LdapOp, request) goes through the real codec and z3 proves the bytes equal the reference PDU of the symbolic arguments (SET OF as multiset). op_call up to the reply wait: queued ID = freshly allocated ID, exactly the handle\'s controls travel, controls and timeout cleared afterwards, timer armed iff a timeout was set; search options consumed; Ldap::clone() carries no pending modifiers.',
+            TRUST + 'Lane B2: tokio channel/timer calls are environment stubs (send records, waits answer Pending). Strings <=2 (3) bytes, <=2 attributes/modifications/controls; filters in SearchRequest from one template (grammar: C08).', '§6 C02'),
     'C19': ('Every request control and extended request of the library (17 kinds incl. critical wrappers, all 8 PasswordModify combinations, both SyncRequest modes) is built by the real From impls / construct_exop from MIR with symbolic sizes, cookies, identifiers and filter characters, and compared by z3 with the OID, criticality and BER value written here from the defining RFCs; every response parser (PagedResults, SyncState, SyncDone, the 4 SyncInfo alternatives with DEFAULTs, ReadEntry, WhoAmI, StartTxn, PasswordModify) is run on reference encodings with symbolic contents and short/81/82/84 length forms; control lists of 0..2 (3) controls go through build_tag and parse_controls.',
             TRUST + 'Cookies and identifiers <= 2 (4) bytes; filters in Assertion/MatchedValues from 2 templates (the grammar itself is C08).', '§6 C19'),
     'C20': ('get_url_params runs from MIR with url::Url::path()/query() replaced by symbolic strings (every string over the alphabet the url crate can return, path <=3 (4) and query <=6 (9) characters, plus structured queries with 0..2 attributes, scope word, filter and 0..2 extensions with symbolic criticality, letter case and values); a reference RFC 4516 splitter / percent-decoder written for the check gives the expected components, defaults and the three error classes; z3 discharges each comparison. Counterexamples are replayed through the real url crate.',
